@@ -54,7 +54,7 @@ func c16Same(got, want *z.StructSchema, in map[string]any, d1, d2 *c16Dest) bool
 
 func C16_Jobs() []string {
 	var out []string
-	for _, op := range []string{"pick", "omit", "extend", "merge", "merge3", "transforms", "pick-map", "omit-map", "chain", "merge-sizes", "merge-nested", "pick-empty"} {
+	for _, op := range []string{"pick", "omit", "extend", "merge", "merge3", "transforms", "pick-map", "omit-map", "chain", "merge-sizes", "merge-nested", "pick-empty", "key-spelling", "derive-nothing"} {
 		for k := 0; k <= 3+3*v.Tier(); k++ { // number of struct tests on the base (spare capacity varies)
 			out = append(out, op+"/t"+string(rune('0'+k)))
 		}
@@ -174,6 +174,30 @@ func C16_Run(job string) {
 			e2 := want.Parse(nin, &dn2)
 			v.Assert(sameMapsExcept(e1, e2, nil) && len(e1) == len(e2) && dn1.In.B == dn2.In.B && dn1.In.A == dn2.In.A && dn1.C == dn2.C, "C16:merge-differs-from-handwritten")
 		}
+	case "key-spelling":
+		// keys are compared exactly: a name that differs from a key only in the case of a letter
+		// selects nothing (string and map arguments)
+		check(base.Omit("A", "B"), hand([]string{"a", "b", "c"}), "C16:omit-differs-from-handwritten")
+		check(base.Omit(map[string]bool{"C": true}), hand([]string{"a", "b", "c"}), "C16:omit-differs-from-handwritten")
+		// (picking a key the schema does not have is a construction error, not exercised here)
+		check(base.Pick(map[string]bool{"A": false, "c": true}), hand([]string{"c"}), "C16:pick-differs-from-handwritten")
+		check(base.Omit("a ", " a", "aa"), hand([]string{"a", "b", "c"}), "C16:omit-differs-from-handwritten")
+	case "derive-nothing":
+		// a derivation that changes nothing still yields a schema of its own: what is added to it
+		// later does not reach the base, and vice versa
+		n1 := base.Omit("zzz").Test(c16Test("n1"))
+		n2 := base.Omit(map[string]bool{"a": false}).Test(c16Test("n2"))
+		n3 := base.Omit().Test(c16Test("n3"))
+		n4 := base.Pick("a", "b", "c").Test(c16Test("n4"))
+		n5 := base.Extend(z.Schema{}).Test(c16Test("n5"))
+		n6 := base.Merge(z.Struct(z.Schema{})).Test(c16Test("n6"))
+		check(base, hand([]string{"a", "b", "c"}), "C16:derivation-modified-its-operand")
+		check(n1, hand([]string{"a", "b", "c"}, "n1"), "C16:omit-differs-from-handwritten")
+		check(n2, hand([]string{"a", "b", "c"}, "n2"), "C16:omit-differs-from-handwritten")
+		check(n3, hand([]string{"a", "b", "c"}, "n3"), "C16:omit-differs-from-handwritten")
+		check(n4, hand([]string{"a", "b", "c"}, "n4"), "C16:pick-differs-from-handwritten")
+		check(n5, hand([]string{"a", "b", "c"}, "n5"), "C16:extend-differs-from-handwritten")
+		check(n6, hand([]string{"a", "b", "c"}, "n6"), "C16:merge-differs-from-handwritten")
 	case "pick-empty":
 		// the fields of a Pick are exactly the selection, the empty selection included
 		for _, x := range []*z.StructSchema{base.Pick(), base.Pick(map[string]bool{}), base.Pick(map[string]bool{"a": false, "b": false}), base.Omit("a", "b", "c")} {
@@ -657,6 +681,26 @@ func c17LastCall(kind string) {
 		e2 := w.Parse(in, &d2)
 		v.Assert(fullCodes(e1) == fullCodes(e2), "C17:modifier-last-call-does-not-win")
 		v.Assert(d1 == d2, "C17:modifier-last-call-does-not-win")
+		// and what the modifiers in force mean (a twin comparison cannot see a slip that moves both
+		// sides): the value under test is the input, else the default; failing => catch value or issue
+		have, val := cls != 0, x
+		if !have && def != 0 {
+			have, val = true, pick(def)
+		}
+		switch {
+		case have && val > g:
+			v.Assert(len(e1) == 0 && d1 == val, "C17:modifier-last-call-does-not-win")
+		case have && catch != 0:
+			v.Assert(len(e1) == 0 && d1 == pick(catch), "C17:modifier-last-call-does-not-win")
+		case have:
+			v.Assert(len(e1) == 1 && e1[0].Code == "gt", "C17:modifier-last-call-does-not-win")
+		case req && catch != 0:
+			v.Assert(len(e1) == 0 && d1 == pick(catch), "C17:modifier-last-call-does-not-win")
+		case req:
+			v.Assert(len(e1) == 1 && e1[0].Code == "required" && d1 == 77, "C17:modifier-last-call-does-not-win")
+		default:
+			v.Assert(len(e1) == 0 && d1 == 77, "C17:modifier-last-call-does-not-win")
+		}
 	case "str":
 		sv1, sv2 := "one", "two"
 		s := z.String().Min(2)
